@@ -22,6 +22,15 @@ def _g_hist(n, bits, ops):
     return True
 
 
+def _g_grow_add(n, bits, g, u, v):
+    G, E = _mk_graph(n, bits, False)
+    ok, n, E = _graph_apply(G, n, E, 2, n + g, 0, 1, 2)
+    if not ok or not _graph_views_ok(G, n, E):
+        return False
+    ok, n, E = _graph_apply(G, n, E, 0, u, v, 1, 2)
+    return ok and _graph_views_ok(G, n, E)
+
+
 def _d_step(n, bits, kind, u, v, w, x):
     D, E = _mk_digraph(n, bits)
     if not _digraph_views_ok(D, n, E):
@@ -80,6 +89,15 @@ for n in (2, 3, 4):
             pre = ' and '.join([rng('u', 0, n + 1), rng('v', 0, n + 1), rng('w', 0, n + 1), rng('x', 1, n)])
             call = 'untraced(_g_step, %d, %s, pickb(rev), 3, %s, %s, %s, %s)' % (n, blist, pk('u', 0, n + 1), pk('v', 0, n + 1), pk('w', 0, n + 1), pk('x', 1, n))
         fn('h_graph%d_%s' % (n, kname), ps, pre, call)
+# grow the vertex set by g >= 0 in ONE call, then insert an edge anywhere (old or new vertices)
+for n in (2, 3):
+    nb = n * (n - 1) // 2
+    B = bits(nb)
+    blist = '[' + ', '.join('pickb(%s)' % b for b in B) + ']'
+    ps = [(b, 'bool') for b in B] + [('g', 'int'), ('u', 'int'), ('v', 'int')]
+    pre = ' and '.join([rng('g', 0, 3), rng('u', 0, n + 4), rng('v', 0, n + 4)])
+    call = 'untraced(_g_grow_add, %d, %s, %s, %s, %s)' % (n, blist, pk('g', 0, 3), pk('u', 0, n + 4), pk('v', 0, n + 4))
+    fn('h_graph%d_grow_add' % n, ps, pre, call)
 # two-step histories from every canonical state (n = 2, 3), sharded by the two kinds
 for n in (2, 3):
     nb = n * (n - 1) // 2
